@@ -94,14 +94,14 @@ func (e *env) fsCheck(sb *sandbox, tc *tcase, order int64, info *metainfo.Info, 
 		e.viol.add("C07.panic."+first, order, fmt.Sprintf("%s: allocator panics: %s | %s", tc, strings.SplitN(panicked, "\n", 2)[0], all),
 			func() any { return tc.replay(map[string]any{"oracle": "panic-allocator", "flags": flags}) })
 	}
-	after := snapshot(sb.top)
+	after := snapshot(sb.guard)
 	outside, inside := diffOutside(sb.baseline, after, root)
 	var openedOutside []string
 	for _, p := range rec.opened {
 		if strictlyInside(root, p) {
 			e.add("fs_files_opened_inside", 1)
 		} else {
-			openedOutside = append(openedOutside, strconv.Quote(p))
+			openedOutside = append(openedOutside, strings.ReplaceAll(strconv.Quote(p), sb.top, "<sandbox>"))
 		}
 	}
 	for _, f := range info.Files {
